@@ -191,8 +191,29 @@ def reviewed_side_conditions(ctx):
     sb = [f2 for f2 in tc.fns if f2.name == "skip_until_before" and f2.base == "ParseState" and f2.body]
     ok3 = False
     if sb:
-        txt = " ".join(sir.expr_str(n) for n in sir.walk(sb[0].body) if n.get("k") == "mcall" and n["m"] == "skip_bytes")
-        ok3 = "skip_bytes(s.len())" in txt.replace(" ", "") and "skip_bytes(index)" in txt.replace(" ", "")
+        # abstract outcomes: when the needle is found the cursor moves by its index, otherwise by the whole rest of the input
+        import absint as ai
+
+        def hooks3(it, e, st):
+            if e.get("k") == "mcall" and e["m"] == "find" and len(e["args"]) == 1:
+                return [(("Some", "IDX"), st.event(("found", True))), (ai.NONE, st.event(("found", False)))]
+            if e.get("k") == "mcall" and e["m"] == "len" and not e["args"]:
+                return [("LEN", st)]
+            if e.get("k") == "mcall" and e["m"] == "skip_bytes" and len(e["args"]) == 1:
+                vs = [o.value for o in it.ev(e["args"][0], st) if o.kind == "val"]
+                return [(ai.UNIT, st.event(("skip", vs[0] if len(vs) == 1 else ai.UNK)))]
+            return None
+        it3 = ai.Interp(hooks=hooks3, idx=tc)
+        try:
+            outs3 = it3.run(sb[0].body, {"self": ai.FREE, "until": ai.FREE})
+        except ai.TooManyPaths:
+            outs3 = []
+        ok3 = bool(outs3)
+        for o in outs3:
+            found = [ev[1] for ev in o.events if ev[0] == "found"]
+            skips = [ev[1] for ev in o.events if ev[0] == "skip"]
+            if len(found) != 1 or skips != (["IDX"] if found[0] else ["LEN"]):
+                ok3 = None if (o.tainted or any(ai.is_unknown(x) for x in skips)) and ok3 is not False else False
     obs.append(ob("C01.progress/reviewed/skip_until", ok3, "parse/mod.rs", "skip_until_before moves to the needle or to the end of the input: %s" % ok3))
     return obs
 
